@@ -435,6 +435,10 @@ class Gen:
             if pr is not None:
                 r.append(pr)
             r.append(self.E("w:t", {}, text=self.text() or "link"))
+            if self.p(self.k.nested_pars * 0.4) and self.depth == 0 and self.in_cell == 0:
+                # a text box anchored in the link's run
+                r.append(self.textbox())
+                self.feat("textbox_in_link")
             h.append(r)
             if self.p(0.2):
                 h.append(self.E("w:proofErr", {"w:type": "spellStart"}))
@@ -744,6 +748,10 @@ class Gen:
             attrs = {"w:id": nid}
             if self.p(0.1):
                 attrs["w:type"] = "normal"
+            if self.p(0.08):
+                # a note that starts with a block-level equation
+                pars.insert(0, self.E("m:oMathPara", {}, self.E("m:oMath", {}, self.E("m:r", {}, self.E("m:t", {}, text="x")))))
+                self.feat("note_starts_with_math")
             root.append(self.E(f"w:{kind}", attrs, *pars))
         self.feat(kind + "s_part")
         return root
@@ -881,6 +889,10 @@ def gen_package(rng: random.Random, knobs: Knobs | None = None, ns=None) -> Pkg:
                 g.feat("odd_part_names")
             pkg.parts[f"word/{name}"] = g.body_part(name, tag)
             doc_rels.append((doc_rid(), REL_T + kind, name, False))
+            if g.p(0.12):
+                # the same part related twice (e.g. as default and as first-page header)
+                doc_rels.append((doc_rid(), REL_T + kind, name, False))
+                g.feat("shared_part")
             part_rels[name] = f"word/_rels/{name}.rels"
             g.feat(kind + "_part")
     for kind in ("footnote", "endnote"):
